@@ -126,6 +126,7 @@ func TestVerifReplayValues(t *testing.T) {
 	fmt.Printf("REPLAY-CASES fn=%s n=%d\n", fnStr, m)
 	// inbound decimal64: string and JSON forms convert to the value they denote (digits * 10^-precision), never panic
 	vrDecimalInbound()
+	vrIdentityrefInbound()
 	// integer text (device XML, defaults, union members): decimal only, leading zeros do not change the value
 	{
 		k := 0
@@ -262,6 +263,53 @@ func TestVerifReplayValues(t *testing.T) {
 		}
 	}
 	fmt.Printf("REPLAY-CASES fn=%s n=%d\n", fnY, y)
+}
+
+// vrIdentityrefInbound: an identity spelled unqualified, with the YANG prefix (XML, YANG text) or with the module name
+// (JSON_IETF) is one value: the identity with the prefix and the module the schema gives for it
+func vrIdentityrefInbound() {
+	lt := &sdcpb.SchemaLeafType{Type: "identityref", TypeName: "identityref",
+		IdentityPrefixesMap: map[string]string{"des3": "crypt", "aes": "crypt", "other": "oth"},
+		ModulePrefixMap:     map[string]string{"des3": "crypto-types", "aes": "crypto-types", "other": "other-types"}}
+	type conv struct {
+		fn string
+		f  func(v string) (*sdcpb.TypedValue, error)
+	}
+	for _, c := range []conv{
+		{"utils.convertStringToTv", func(v string) (*sdcpb.TypedValue, error) { return convertStringToTv(lt, v, 0) }},
+		{"utils.Convert", func(v string) (*sdcpb.TypedValue, error) { return Convert(v, lt) }},
+		{"utils.ConvertJsonValueToTv", func(v string) (*sdcpb.TypedValue, error) { return ConvertJsonValueToTv(v, lt) }},
+	} {
+		n := 0
+		for _, id := range []string{"des3", "aes", "other"} {
+			var first *sdcpb.TypedValue
+			for _, spelling := range []string{id, lt.IdentityPrefixesMap[id] + ":" + id, lt.ModulePrefixMap[id] + ":" + id} {
+				n++
+				tv, err := c.f(spelling)
+				if err != nil {
+					fmt.Printf("REPLAY-FAIL fn=%s clause=identityref_carries_the_prefix_and_module_of_the_schema input=identityref from %q why=refused: %v\n", c.fn, spelling, err)
+					continue
+				}
+				ir := tv.GetIdentityrefVal()
+				if ir == nil || ir.Value != id || ir.Prefix != lt.IdentityPrefixesMap[id] || ir.Module != lt.ModulePrefixMap[id] {
+					fmt.Printf("REPLAY-FAIL fn=%s clause=identityref_carries_the_prefix_and_module_of_the_schema input=identityref from %q why=converted to %v, the schema says value=%s prefix=%s module=%s\n", c.fn, spelling, tv, id, lt.IdentityPrefixesMap[id], lt.ModulePrefixMap[id])
+					continue
+				}
+				if first == nil {
+					first = tv
+				} else if !EqualTypedValues(first, tv) {
+					fmt.Printf("REPLAY-FAIL fn=%s clause=identityref_carries_the_prefix_and_module_of_the_schema input=identityref from %q why=%v and %v denote the same identity and compare different\n", c.fn, spelling, first, tv)
+				}
+			}
+		}
+		for _, bad := range []string{"nope", "crypt:nope", ""} {
+			n++
+			if tv, err := c.f(bad); err == nil && tv.GetIdentityrefVal() != nil {
+				fmt.Printf("REPLAY-FAIL fn=%s clause=identityref_carries_the_prefix_and_module_of_the_schema input=identityref from %q why=an identity the schema does not know is accepted: %v\n", c.fn, bad, tv)
+			}
+		}
+		fmt.Printf("REPLAY-CASES fn=%s n=%d\n", c.fn, n)
+	}
 }
 
 func vrDecimalInbound() {
